@@ -385,6 +385,9 @@ func EncodeDHCP4(b []byte, opcode DHCP4OpCode, mt DHCP4MessageType, chaddr net.H
 	}
 	options[DHCP4OptionCode(DHCP4OptionDHCPMessageType)] = []byte{byte(mt)}
 	n := 240 + p.AppendOptions(options, order)
+	if n >= len(p) { // options (and the End option) do not fit the buffer
+		return nil
+	}
 	p[n] = byte(DHCP4End)
 	n++
 
